@@ -97,6 +97,10 @@ MARGIN_EXACT = 1e-6 + 2e-4  # nm: 1e-6 + the resolution of the written CG coordi
 MARGIN_GENERIC = 1e-6 + 5e-4
 NWORKERS = int(os.environ.get('VERIF_C11_WORKERS', '10'))
 NTHREADS = int(os.environ.get('VERIF_C11_SUBPROCS', '4'))
+# one run of martinize2 on these inputs takes 5-60 s (loaded machine); a run that takes longer than this is reported as
+# 'does not finish' (exit status `timeout`) - a presentation that sends a graph search into its exponential regime is a
+# difference too, and must end in a verdict rather than in the budget alarm of the whole check
+RUN_TIMEOUT = int(os.environ.get('VERIF_C11_RUN_TIMEOUT', '600' if chk.thorough else '240'))
 
 # ----------------------------------------------------------------------------------------------
 # admitted differences: every one carries its reason; the evidence reports count, largest deviation and bound per class
@@ -408,9 +412,19 @@ def collect(d):
     return files
 
 
+class RunTimeout(BaseException):
+    pass
+
+
+def _run_alarm(*_a):
+    raise RunTimeout()
+
+
 def run_inproc(job):
     """executed in a forked worker: run bin/martinize2 in-process in a fresh directory"""
     argv, pdb_text = job
+    signal.signal(signal.SIGALRM, _run_alarm)   # (the forked worker inherited the budget alarm of the check)
+    signal.alarm(RUN_TIMEOUT)
     from vermouth.file_writer import DeferredFileWriter
     d = tempfile.mkdtemp(dir=SCRATCH, prefix='run_')
     with open(os.path.join(d, 'in.pdb'), 'w', newline='') as f:
@@ -427,9 +441,12 @@ def run_inproc(job):
         runpy.run_path(M2PATH, run_name='__main__')
     except SystemExit as e:
         code = e.code if isinstance(e.code, int) else (0 if e.code is None else 1)
+    except RunTimeout:
+        code, exc = 'timeout', 'martinize2 did not finish within %d s' % RUN_TIMEOUT
     except BaseException as e:  # noqa
         code, exc = 1, 'uncaught %s: %s' % (type(e).__name__, str(e)[:300])   # what the interpreter would exit with
     finally:
+        signal.alarm(0)
         log = sys.stderr.getvalue() + exc
         sys.argv, sys.stderr, sys.stdout = old[:3]
         os.chdir(old[3])
@@ -450,7 +467,7 @@ def run_subproc(job):
     env['PYTHONHASHSEED'] = str(seed)
     env['PYTHONPATH'] = REPO
     p = subprocess.run([sys.executable, '-W', 'ignore', M2PATH] + argv, cwd=d, env=env, stdout=subprocess.PIPE,
-                       stderr=subprocess.PIPE, text=True, timeout=900)
+                       stderr=subprocess.PIPE, text=True, timeout=3 * RUN_TIMEOUT)
     files = collect(d)
     shutil.rmtree(d, ignore_errors=True)
     return {'code': p.returncode, 'files': files, 'log': p.stderr[-3000:]}
